@@ -38,9 +38,41 @@ def strip(src):
     return "".join(out)
 
 
+def norm(text):
+    """layout-insensitive form of an item, for the digest: outside string/char literals, white space is kept only
+    between two identifier characters (`x+1` = `x + 1`) and a comma before a closing bracket is dropped
+    (`f(a, b,)` = `f(a, b)`: what rustfmt adds or removes when it re-wraps a call)"""
+    out, i, n = [], 0, len(text)
+    seg = []
+
+    def flush():
+        t = "".join(seg)
+        t = re.sub(r'(?<![A-Za-z0-9_])\s+|\s+(?![A-Za-z0-9_])', '', t)
+        out.append(re.sub(r',([)\]}])', r'\1', t))
+        seg.clear()
+    while i < n:
+        c = text[i]
+        if c == '"':
+            j = i + 1
+            while j < n and text[j] != '"':
+                j += 2 if text[j] == "\\" else 1
+            flush(); out.append(text[i:j + 1]); i = j + 1
+        elif c == "'" and re.match(r"'(\\.|[^\\'])'", text[i:]):
+            m = re.match(r"'(\\.|[^\\'])'", text[i:])
+            flush(); out.append(m.group(0)); i += len(m.group(0))
+        else:
+            seg.append(c); i += 1
+    flush()
+    return "".join(out)
+
+
+def digest(text):
+    return hashlib.sha256(norm(text).encode()).hexdigest()[:15]
+
+
 def items(path):
     """{name: digest} of the top-level items of a Rust file"""
-    return {k: hashlib.sha256(v.encode()).hexdigest()[:15] for k, v in item_texts(path).items()}
+    return {k: digest(v) for k, v in item_texts(path).items()}
 
 
 SLICE = " @@ "
@@ -59,11 +91,11 @@ def slice_digest(texts, name):
     text = texts.get(item)
     if text is None:
         return None
-    t = "".join(text.split())
-    i = t.find("".join(start.split()))
+    t = norm(text)
+    i = t.find(norm(start))
     if i < 0:
         return None
-    j = t.find("".join(end.split()), i + 1)
+    j = t.find(norm(end), i + 1)
     if j < 0:
         return None
     return hashlib.sha256(t[i:j].encode()).hexdigest()[:15]
@@ -77,7 +109,7 @@ def digests(path, names):
         if SLICE in n:
             res[n] = slice_digest(texts, n)
         else:
-            res[n] = hashlib.sha256(texts[n].encode()).hexdigest()[:15] if n in texts else None
+            res[n] = digest(texts[n]) if n in texts else None
     return res
 
 
